@@ -234,6 +234,12 @@ class CounterToken(Token, FileSystemEventHandler):
         self.watcher = ipcom().fswatch(self, self.path, recursive=True)
         logger.info("Watching %s", self.watchedpath)
 
+        # A token file read above can have been removed (e.g. by the thread
+        # watching its finished job) before the directory was watched: no
+        # event will ever report it, so refresh the state once more
+        with self.lock, self.ipc_lock:
+            self._update()
+
     def _update(self):
         """Update the state by reading all the information from disk
 
